@@ -63,7 +63,7 @@ theorem stepPython_sem (S : LeafSpec ev G) (hC : CompactAgree E ev G) (o : Optio
       | error e => simp [hpm] at h
       | ok pm =>
         simp only [hpm] at h
-        have hp := createNested_poetry_partial S hC c hdom X Y Z hE txt pm htx hpm
+        have hp := createNested_poetry_of_agree S hC c hdom X Y Z hE txt pm htx hpm
         have := mIntersect_sound S hm hp.1 h
         exact ⟨this.1, by rw [this.2, hp.2, hb]⟩
   · simp only [ht, Bool.false_eq_true, if_false, pure, Except.pure] at h hd
